@@ -164,3 +164,21 @@ Proof.
   destruct (Z.ltb_spec (zlen (srest s pos) + 65) n) as [L|L]; [discriminate|]. injection G as -> ->.
   replace (Z.min n (zlen (srest s pos) + 65)) with n in E by lia. split; [exact E|]. apply seq_n_length in E. lia.
 Qed.
+
+(* ---------- the write side ---------- *)
+From VF Require Import Model.Writer.
+(* a fixed-size array of non-character elements with a different number of elements is refused *)
+Lemma fixed_count_enforced c el wr n vs pos sz : ty_size c el = Some sz ->
+  (match el with TPrim PChar _ | TPrim PWchar _ => false | _ => true end) = true ->
+  n <> Z.of_nat (length vs) -> write_array c el wr (LFixed n) (VList vs) pos = Err EArraySize.
+Proof.
+  intros Hs Ht Hn. unfold write_array. rewrite Hs. destruct (Z.eqb_spec n (Z.of_nat (length vs))) as [E|_]; [contradiction|].
+  destruct el as [[k sg pk|k| | |sg|] al|b al ms fl|t0|t0 l0|nm fs al|nm fs al]; try reflexivity; discriminate.
+Qed.
+(* dumping a null-terminated array writes the elements followed by the element type's zero value *)
+Lemma null_terminated_dump c el wr vs pos :
+  (match el with TPrim PChar _ | TPrim PWchar _ => false | _ => true end) = true ->
+  write_array c el wr LNull (VList vs) pos = write_list c el wr (vs ++ [default_value el]) pos.
+Proof. intros Ht. unfold write_array. destruct el as [[k sg pk|k| | |sg|] al|b al ms fl|t0|t0 l0|nm fs al|nm fs al]; try reflexivity; discriminate. Qed.
+Lemma null_terminated_dump_chars c al wr bs pos : write_array c (TPrim PChar al) wr LNull (VBytes bs) pos = Ok (bs ++ [0]).
+Proof. reflexivity. Qed.
